@@ -116,7 +116,13 @@ Definition h_read_cat (a : list sx) : sx :=
   | _ => err "arity"
   end.
 
+Definition h_append_rel (a : list sx) : sx :=
+  match a with
+  | [b; f] => match as_bytes b, as_bytes f with Some b, Some f => sbool (check_append_rel b f) | _, _ => err "args" end
+  | _ => err "arity"
+  end.
+
 Definition table : list (string * handler) :=
   [("safe_trace", h_safe_trace); ("no_write", h_no_write); ("fs_run", h_fs_run);
    ("append_seq", h_append_seq); ("part_id", h_part_id); ("find_max_part", h_find_max_part);
-   ("append_trace", h_append_trace); ("read_cat", h_read_cat)].
+   ("append_trace", h_append_trace); ("read_cat", h_read_cat); ("append_rel", h_append_rel)].
